@@ -1,0 +1,11 @@
+//go:build verif
+
+package verifexport
+
+import "go.minekube.com/gate/pkg/internal/verifhook"
+
+// HookFunc is verifhook.Func.
+type HookFunc = verifhook.Func
+
+// InstallHook installs the process-wide verification hook receiver.
+func InstallHook(f HookFunc) { verifhook.Install(f) }
